@@ -239,7 +239,7 @@ class GeomMultiUnification(om.ExplicitComponent):
             for section in sections:
                 name = section["name"]
                 t_over_c_name = "{}_t_over_c".format(name)
-                n = int(ny - 1)
+                n = int(section["mesh"].shape[1] - 1)
                 self.add_input(t_over_c_name, shape=(n), tags=["mphys_coupling"])
 
                 self.declare_partials(
